@@ -198,7 +198,7 @@ PROP = dict(
     modules=["CG.Props.C16"],
     required_theorems=["C16_push_shortest_class", "C16_push_eq_spec", "C16_push_evaluates_to_data", "C16_push_num", "C16_push_num_out_of_range",
                        "C16_lock_recognised", "C16_unlock_recognised", "C16_unlock_window_table", "C16_unlock_pinned_rejects_short",
-                       "C16_text_roundtrip_partial", "C16_text_roundtrip_no_pushdata24", "C16_text_pushdata_token_count_witness",
+                       "C16_pushes_evaluate_to_data", "C16_text_roundtrip_partial", "C16_text_roundtrip_no_pushdata24", "C16_text_pushdata_token_count_witness",
                        "C16_text_unnamed_opcode_witness", "C16_text_roundtrip_full_false", "C16_name_tables"],
     pre_build=pre_build,
     custom_stage=custom_stage,
@@ -231,7 +231,7 @@ CLAIM = dict(
     text="Kernel-checked theorems over models of Script::append_data/append_num, the P2PKH helpers, the text printer "
          "string_representation(false) and the python-feature parser parse_string/decode_op/handle_pushdata with both name tables regenerated from "
          "the tree: a push built for any data < 2^32 bytes uses the shortest class with a little-endian length field and evaluates (any checker, "
-         "any flags) to exactly that data; a pushed number in [-(2^31-1), 2^31-1] decodes back, others are errors; lock scripts are recognised and "
+         "any flags) to exactly that data, and so does ANY LIST of such pushes built one after the other, each at whatever offset it lands (C16_pushes_evaluate_to_data; c16.pushn compares every item); a pushed number in [-(2^31-1), 2^31-1] decodes back, others are errors; lock scripts are recognised and "
          "yield the hash; unlock scripts built from any 9..73-byte signature and 33-byte key are recognised and yield the key (repaired window; the "
          "pinned 71..73 window is a proved witness); parse(print s) = s at character level for every well-formed script that satisfies an exact, "
          "decidable safety condition (all opcodes named, no direct push while the PUSHDATA2/4 counter is positive), with kernel-checked witnesses "
